@@ -201,7 +201,9 @@ def gen_steps(rng, n):
     steps = [['load']]
     for _ in range(n):
         r = rng.random()
-        if r < 0.3:
+        if r < 0.08:
+            steps.append(['save_path'])
+        elif r < 0.3:
             steps.append(['save'])
         elif r < 0.4:
             steps.append(['snap'])
@@ -486,6 +488,22 @@ def run(ctx):
             progs.append(q)
         groups.append(grp)
     groups.append(deep[:8])
+    writers_grp = []
+    for n in range(8):
+        q = gen_prog(rng, len(progs))
+        kind = n % 4
+        if kind == 0:
+            q['source'] = {'kind': 'file', 'file': rng.choice(['duck_triangles.dae', 'duck_polylist.dae', 'duck.zip'])}
+            q['ignore'] = None
+        elif kind == 1:
+            q = gen_deep_prog(rng, len(progs))
+            q['source'] = dict(q['source'], xml=make_deep_xml(rng, NS141, rng.randint(250, 380)))
+            q['name'] = 'p%d' % len(progs)
+        q['steps'] = [['load'], ['save_path'], ['edit', 'asset', n], ['save_path'], ['save']]
+        writers_grp.append(len(progs))
+        progs.append(q)
+    groups.append(writers_grp)
+    groups.append(writers_grp)
     nprog = len(progs)
     ctx.log('solo runs: %d document programs, one fresh process each' % nprog)
     solo = run_many([{'mode': 'solo', 'prog': p} for p in progs])
@@ -516,7 +534,7 @@ def run(ctx):
         slow = sum(1 for i in pick if progs[i]['source'].get('deep'))
         payloads.append(({'mode': 'threads', 'progs': [progs[i] for i in pick], 'rounds': 2 if slow >= 4 else rounds}, pick))
     ngated = 120 if quick else 1500
-    io_steps = lambda p: [k for k, st in enumerate(p['steps']) if st[0] in ('load', 'save') or st[:2] == ['edit', 'query']]
+    io_steps = lambda p: [k for k, st in enumerate(p['steps']) if st[0] in ('load', 'save') or st[:2] == ['edit', 'query']] or [0]
     writers = [i for i in usable if any(o['obs'][0] == 'bytes' for o in solo[i]['steps'])]
     foreign_writers = [i for i in writers if progs[i]['source'].get('ns') not in (None, NS141)]
     for n in range(ngated):
